@@ -203,9 +203,9 @@ func (r *Runner) unTest(ctx context.Context, op syntax.UnTestOperator, x string)
 		}
 		return false
 	case syntax.TsVarSet:
-		return r.lookupVar(x).IsSet()
+		return x != "" && r.lookupVar(x).IsSet()
 	case syntax.TsRefVar:
-		return r.lookupVar(x).Kind == expand.NameRef
+		return x != "" && r.lookupVar(x).Kind == expand.NameRef
 	case syntax.TsNot:
 		return x == ""
 	case syntax.TsUsrOwn, syntax.TsGrpOwn:
